@@ -23,6 +23,9 @@ pub fn check(tier: Tier) -> Check {
     }
     parts.push(Part::new("C14/drop", json!({"depth": tier.pick(4, 6), "r": 1, "flavour": 1}), 1, tier.pick(40, 600)));
     // two established subscriptions (one stream taken, one response kept), several buffered messages
+    // persistent back-pressure on the write half (WriteBlock / WriteUnblock events)
+    parts.push(Part::new("C14/drop", json!({"depth": tier.pick(4, 5), "r": 1, "wb": true}), 1, tier.pick(40, 600)));
+    parts.push(Part::new("C14/drop", json!({"depth": tier.pick(3, 4), "r": 0, "wb": true}), 2, tier.pick(40, 600)));
     // identifier flavour: the counters start next to a boundary of their encodings (DESIGN 4)
     parts.push(Part::new("C14/drop", json!({"depth": tier.pick(4, 5), "r": 0, "ids": [65534, 127]}), 1, tier.pick(40, 600)));
     parts.push(Part::new("C14/streams", json!({"depth": tier.pick(5, 6)}), tier.pick(1, 2), tier.pick(40, 400)));
